@@ -16,7 +16,8 @@ every batch compared with the same molecule computed alone (differential twin):
         molecules (CIS energies; RPA and excited gradients are rejected loudly and counted)
   (cfg and the homogeneous CIS/RPA batches are executed twice: never-written `torch.empty` memory
         answered with zeros, as everywhere else, and with NaN)
-  md    BOMD / XL-BOMD(k=3) / KSA-XL-BOMD (err_threshold 0 and 1e-3), 4 steps, user-supplied velocities:
+  md    BOMD / XL-BOMD(k=3) / KSA-XL-BOMD (err_threshold 0 and 1e-3; 1e-1, 1e-2, 3e-3 on the ordered pairs),
+        4 steps, user-supplied velocities:
         every HDF5 dataset of molecule k of the batch run equals that of its run alone
 
 Every call runs under the deterministic iteration horizon.  A horizon trip is a violation, except for
@@ -75,6 +76,15 @@ ENGINES = {
     "ksa": ("ksa", {"err_threshold": 0.0}),
     "ksa1e-3": ("ksa", {"err_threshold": 1e-3}),
 }
+# further Krylov thresholds, run on the ordered pairs only: which threshold separates the ranks that two batch
+# mates need depends on the trajectories (measured: 1e-3 did before user velocities were taken as given, 1e-1,
+# 1e-2 and 3e-3 do after), so the alphabet spans the range instead of relying on one value
+ENGINES_PAIRS_ONLY = {
+    "ksa1e-1": ("ksa", {"err_threshold": 1e-1}),
+    "ksa1e-2": ("ksa", {"err_threshold": 1e-2}),
+    "ksa3e-3": ("ksa", {"err_threshold": 3e-3}),
+}
+ALL_ENGINES = dict(ENGINES, **ENGINES_PAIRS_ONLY)
 DEGENERATE = 1e-3
 
 _REFS = {}
@@ -146,7 +156,7 @@ def _sp_call(mols, cfg, pad, pat, uninit="zero"):
 
 
 def _md_call(mols, specs, cfg, pad, pat):
-    eng, xe = ENGINES[cfg["engine"]]
+    eng, xe = ALL_ENGINES[cfg["engine"]]
     p = sp.make_params(cfg["method"], cfg["solver"], eps=SCF_EPS)
     with B.uninitialised("zero"):
         return B.run_md(
@@ -497,12 +507,15 @@ def lattice(tier, seed):
         if not quick:
             for bt in itertools.product(ALPHABET, repeat=3):
                 cases.append(_case("md", [_spec(n) for n in bt], 1, "mixed", cfg, seed))
-        # one transposed member per molecule
+        # one transposed member per molecule (below)
         for i, name in enumerate(ALPHABET):
             ts = B.transpositions(M.get(name))
             if ts:
                 mate = ALPHABET[(i + 2) % len(ALPHABET)]
                 cases.append(_case("md", [_spec(mate), _spec(name, 0, ts[-1])], 1, "far", cfg, seed))
+    for engine in ENGINES_PAIRS_ONLY:
+        for bt in md_batches:
+            cases.append(_case("md", [_spec(n) for n in bt], 1, "far", _cfg("AM1", engine=engine), seed))
     return cases
 
 
@@ -548,6 +561,7 @@ def describe(c, res):
 
 
 def run(chk, tier, seed):
+    B.freeze_code()
     cases = lattice(tier, seed)
     only = os.environ.get("C05_SECTIONS")  # development aid; a filtered run is reported as capped
     if only:
